@@ -61,6 +61,9 @@ def norm_sp(sp):
     return (sp or "").replace(REPO_PREFIX[0], "")
 
 
+# rules of sibling properties that decide code on this property's own call path: "the class writer handles whatever the reader accepts": the jump-rewrite loop of the writer must make progress (C02 R02.5/R02.6)
+PREMISES = [("C02", ["R02.5", "R02.6"])]
+
 def run(F, R, tier):
     mono = F.mono()
     REPO_PREFIX[0] = F.repo.rstrip("/") + "/"
